@@ -116,7 +116,7 @@ def collect_views(ca: pa.ChunkedArray, arr: NEA):
         out = []
         for c in names:
             pl = df[c].array._pa_array.combine_chunks()
-            out.append([[] if x is None else x for x in lists_py(pl)])
+            out.append(list(lists_py(pl)))
         return out
 
     def lists_series_view():
@@ -124,7 +124,7 @@ def collect_views(ca: pa.ChunkedArray, arr: NEA):
         for c in names:
             ls = s.nest.get_list_series(c)
             assert list(ls.index) == labels and ls.name == c
-            out.append([[] if x is None else x for x in lists_py(ls.array._pa_array.combine_chunks())])
+            out.append(list(lists_py(ls.array._pa_array.combine_chunks())))
         return out
 
     v_lists = attempt(lists_view)
@@ -141,7 +141,7 @@ def collect_views(ca: pa.ChunkedArray, arr: NEA):
         v_len, cq_bools(v_isna), cq_res(v_lengths, cq_nats), cq_res(v_flat_length, str),
         cq_res(v_offdiffs, cq_nats), cq_res(v_list_index, cq_nats), cq_res(v_names, cq_strs),
         cq_lrows(it_rows), cq_res(v_flat, cq_flat),
-        cq_res(v_lists, lambda ls: cq_list(cq_list(cq_vals(l) for l in col) for col in ls)))
+        cq_res(v_lists, lambda ls: cq_list(cq_list(core.cq_opt(l, cq_vals) for l in col) for col in ls)))
     raised = [k for k, v in [("list_lengths", v_lengths), ("flat_length", v_flat_length), ("list_offsets", v_offdiffs),
                              ("get_list_index", v_list_index), ("field_names", v_names), ("to_flat", v_flat),
                              ("to_lists", v_lists)] if v[0] == "err"]
@@ -157,7 +157,7 @@ def repr_flat(v):
 
 
 def repr_lists(ls):
-    return cq_list(cq_list(cq_vals(l) for l in col) for col in ls)
+    return cq_list(cq_list(core.cq_opt(l, cq_vals) for l in col) for col in ls)
 
 
 def lists_py(pl: pa.Array):
